@@ -8,7 +8,10 @@
 //   - StatesPub.Publish returns once the transaction sits in the pub-sub's buffer (or was handed to
 //     handleStatesFromClient); txRetriever.retrieve() drains that buffer (readPendingTxs) before it
 //     answers, so every publish that returned before an event is injected is visible to the handling of
-//     that event. No sleep is needed for that.
+//     that event. Every history is executed in two modes, "drain" (exactly that) and "settled" (the
+//     harness additionally waits -- on a condition read through the verif hook, not on the clock -- until
+//     the states handler has taken the transaction); see history.run for how the 1 ms timer of
+//     readPendingTxs is kept from causing false alarms.
 //   - an adjudicator event is handed to the watcher through the subscription's Next(); it has been
 //     handled completely when the handler goroutine calls Next() again (the scripted subscription
 //     signals every Next call). Register calls are recorded by the scripted Registerer, relayed events
@@ -16,7 +19,8 @@
 //
 // Every history is written as a Coq case (events, observed outputs per event, final bookkeeping read
 // through watcher/local/verif_export.go) and compared with Model/Watcher.v; an oracle written from the
-// property text runs on every event.
+// property text runs on every event. A third part reports events for the three channels of a family
+// concurrently and checks what must hold for every schedule (concRun).
 package c05
 
 import (
@@ -1374,6 +1378,8 @@ func outcomeOf(h *history) (string, string) {
 func concRun(seed int64) (class string, bad []complaint, descr []string) {
 	r := rand.New(rand.NewSource(seed))
 	w := newWorld(rand.New(rand.NewSource(r.Int63())), 3)
+	// settled publishes: the oracle below must not depend on the 1 ms drain window of readPendingTxs
+	w.settle = true
 	newestVer := []uint64{1 + uint64(r.Intn(3)), uint64(r.Intn(4)), uint64(r.Intn(4))}
 	setup := []event{
 		{K: evStartLedger, Ch: 0, Tx: atx{Ver: 0, Tok: 1}},
